@@ -29,6 +29,9 @@ Families (all members visited):
   keep   : for the rule sets with two objects per row (and one single-object rule set) every sheet of the layout
            family at anchor 0 and of the rows family (generic values) is read a second time through XlsTableReader(...).iter_table by a consumer that keeps all
            yielded row lists (rows = list(...); zip(*rows)) and inspects them afterwards.
+  shared : ONE XlsObjReadRules object used by two XlsTableReaders over two sheets (every ordered pair of the small title
+           rows of 4 rule sets, 3 data rows each): the two iter_table generators consumed in turns (zip) and, as
+           control, one after the other; each reader must read its own sheet's columns.
   classes: reader classes with the TableReader mixin: a base class, a subclass overriding ATTR_RULES (other title,
            converter, default; optionally STOP_ON), a subclass of that overriding nothing, an unrelated class; every
            sequence of <= 3 reads over the four classes (84) x 8 sheets (optional columns present / absent,
@@ -73,7 +76,8 @@ REQUIRED_FEATURES = [
     "cells:whitespace-blank", "outside-domain", "seq:two-reads", "via:table-reader-mixin",
     "classes:subclass-after-base", "classes:base-after-subclass", "classes:unrelated-class-between",
     "classes:rules-inherited-unchanged", "consumer:keeps-yielded-rows",
-    "consumer:keeps-yielded-rows-of-several-objects",
+    "consumer:keeps-yielded-rows-of-several-objects", "shared-rules:interleaved", "shared-rules:sequential",
+    "shared-rules:different-column-order",
 ]
 
 
@@ -359,8 +363,9 @@ def _features(case, rs, exp, info, grid):
     return f
 
 
-def judge(case, acc):
-    """-> (features, outcome label, nontrivial, list of violations (sig, msg, observed, expected))."""
+def judge(case, acc, got_given=None):
+    """-> (features, outcome label, nontrivial, list of violations (sig, msg, observed, expected)).
+    got_given: rows already read by the caller (or the exception the read raised) instead of reading here."""
     rs = RULESETS[case["rs"]]
     grid = make_grid(case)
     stop_on, ladder = case["stop_on"], bool(case["ladder"])
@@ -379,7 +384,10 @@ def judge(case, acc):
     lad = ":ladder" if ladder else ""
     acc.trans()
     try:
-        got = real_read(case["rs"], grid, stop_on, ladder, case.get("via", "function"))
+        if isinstance(got_given, Exception):
+            raise got_given
+        got = got_given if got_given is not None else \
+            real_read(case["rs"], grid, stop_on, ladder, case.get("via", "function"))
     except Exception as e:  # noqa
         viol.append(("raises:" + type(e).__name__, f"reading the sheet raised {type(e).__name__}: {str(e)[:200]}",
                      type(e).__name__, f"{len(exp)} rows"))
@@ -574,7 +582,7 @@ def bounds(tier):
 
 def shards(tier):
     b = _bounds(tier)
-    out = [("cells",), ("mixin",)] + [("classes", k, 6) for k in range(6)] + [("seq", "plain2"), ("seq", "rdict"), ("seq", "optional"), ("seq", "rdictopt")]
+    out = [("cells",), ("mixin",)] + [("shared", n) for n in ("plain2", "rdict", "optional", "twoobj2")] + [("classes", k, 6) for k in range(6)] + [("seq", "plain2"), ("seq", "rdict"), ("seq", "optional"), ("seq", "rdictopt")]
     for n in LAYOUT_RULESETS:
         nt = len(title_rows(RULESETS[n], b["layout_maxlen"]))
         step = 1 if nt < 600 else (4 if nt < 4000 else 16)
@@ -607,6 +615,9 @@ def run_shard(shard, tier, seed, acc):
         return
     if kind == "classes":
         _classes_block(acc, shard[1], shard[2])
+        return
+    if kind == "shared":
+        _shared_block(acc, shard[1])
         return
     if kind == "layout":
         _, n, anchor, k, step = shard
@@ -881,7 +892,87 @@ def _classes_block(acc, k, step):
             return
 
 
+# ---- one XlsObjReadRules object used by two readers ----------------------------------------------------------------
+def _shared_read(rsname, grids, mode):
+    """ONE set of XlsObjReadRules objects, one XlsTableReader per sheet; the generators are consumed one after
+    the other ('sequential') or in turns, one row each ('interleaved', as in zip(reader1..., reader2...))."""
+    from ak import xlsread as xr
+    rules_objs = [xr.XlsObjReadRules(cls, rules) for cls, rules in _real(rsname)]
+    readers = [xr.XlsTableReader(*rules_objs) for _ in grids]
+    sheets = [X.FakeSheet("sheet1", g) for g in grids]
+    try:
+        if mode == "sequential":
+            return [[list(r) for r in rd.iter_table(ws)] for rd, ws in zip(readers, sheets)]
+        gens = [rd.iter_table(ws) for rd, ws in zip(readers, sheets)]
+        outs = [[] for _ in gens]
+        live = [True] * len(gens)
+        while any(live):
+            for i, g in enumerate(gens):
+                if live[i]:
+                    try:
+                        outs[i].append(list(next(g)))
+                    except StopIteration:
+                        live[i] = False
+        return outs
+    except Exception as e:  # noqa
+        return [e for _ in grids]
+
+
+def run_shared(case, acc, count=True):
+    from mc import core
+    q = case["shared_rules"]
+    subs = [{"rs": q["rs"], "anchor": 0, "lead": 0, "rows": rows, "stop_on": "blank all", "ladder": 0}
+            for rows in q["sheets"]]
+
+    def judge_all(mode):
+        gots = _shared_read(q["rs"], [make_grid(c) for c in subs], mode)
+        feats, found = set(), None
+        for k, (sub, got) in enumerate(zip(subs, gots)):
+            f, _l, _n, v = judge(sub, core.Acc(), got)
+            feats |= {x for x in f if x.startswith(("layout:", "attr:", "objects:"))}
+            if v and found is None:
+                sig, msg, obs, exp = min(v, key=lambda t: _prio(t[0]))
+                found = (sig, f"sheet {k + 1} of 2 read through a reader sharing its XlsObjReadRules object with the "
+                         f"reader of the other sheet ({mode}): " + msg, obs, exp)
+        return feats, found
+
+    acc.trans(2)
+    feats, found = judge_all(q["mode"])
+    feats |= {"shared-rules:" + q["mode"]}
+    if q["sheets"][0][0] != q["sheets"][1][0]:
+        feats.add("shared-rules:different-column-order")
+    report = None
+    if found is not None:
+        sig, msg, obs, exp = found
+        if q["mode"] == "interleaved" and judge_all("sequential")[1] is None:
+            report = ("shared-rules-readers-interleaved:" + sig.split(":")[0], msg, obs, exp)
+        else:
+            report = (sig + ":shared-rules", msg, obs, exp)
+    if count:
+        acc.case(nontrivial=q["mode"] == "interleaved" and "shared-rules:different-column-order" in feats,
+                 features=sorted(feats), outcome="shared-rules:ok" if report is None else "violation:" + report[0])
+    if report is not None:
+        acc.violation("C18:" + report[0], case, report[1], report[2], report[3])
+    return report
+
+
+def _shared_block(acc, n):
+    rs = RULESETS[n]
+    trs = small_title_rows(rs, 3)
+    for t1 in trs:
+        rows1 = [t1] + [[generic_value(rs, title, r, c) for c, title in enumerate(t1)] for r in range(3)]
+        for t2 in trs:
+            rows2 = [t2] + [[generic_value(rs, title, r + 4, c) for c, title in enumerate(t2)] for r in range(3)]
+            for mode in ("interleaved", "sequential"):
+                run_shared({"shared_rules": {"rs": n, "sheets": [rows1, rows2], "mode": mode}}, acc)
+        if acc.expired():
+            return
+
+
 def replay(case, acc):
+    if "shared_rules" in case:
+        run_shared(case, acc)
+        return
     if "reads" in case:
         run_classes(case, acc)
         return
